@@ -858,7 +858,7 @@ def main():
     # HISTORY: several configurations built and used in one process; every use = the model of that configuration alone
     if replay_history is not None: hcases = [replay_history]
     elif chk.replay: hcases = []
-    else: hcases = [history_case(rng) for _ in range(20000 if chk.thorough else 2500)]
+    else: hcases = [history_case(rng) for _ in range(10000 if chk.thorough else 2500)]
     h_uses = 0
     if hcases:
         henc = [enc_history(h) for h in hcases]
